@@ -228,6 +228,9 @@ class Evaluator:
                     if path is not None:
                         return self.read_member(path + '*', P, e.get('l'))
                 t = self.E(e['e'], P, fr)
+                if t[0] == 'addr' and t[1][0] == 'lref':
+                    v_l = P.locals.get((t[1][1], t[1][2]))
+                    return v_l if v_l is not None else ('unk', 'uninitialised local ' + str(t[1][3]))
                 if t[0] == 'addr':
                     return t[1]
                 if t[0] in ('aptr', 'arr'):
@@ -251,6 +254,11 @@ class Evaluator:
                     pth = self.mpath(inner, P, fr)
                     if pth is not None:
                         return ('addr', ('sym', pth))
+                if inner.get('k') == 'local':
+                    cur_ = P.locals.get((fr['id'], inner['id']))
+                    if cur_ is None or cur_[0] not in ('alias', 'struct', 'arr', 'cvec'):
+                        # address of a scalar / string local: a store through it updates the local
+                        return ('addr', ('lref', fr['id'], inner['id'], inner.get('n')))
                 return ('addr', self.E(e['e'], P, fr))
             if op in ('++', '--'):
                 tgt = e['e']
@@ -494,6 +502,9 @@ class Evaluator:
             return
         if k == 'un' and t['op'] == '*':
             p = self.E(t['e'], P, fr)
+            if p[0] == 'addr' and p[1][0] == 'lref':
+                P.locals[(p[1][1], p[1][2])] = v
+                return
             if p[0] == 'addr' and p[1][0] == 'sym':
                 name = p[1][1]
                 P.mem[name] = v
@@ -1084,6 +1095,12 @@ class Evaluator:
                     this_path = t[1]
                 else:
                     return None
+                if e.get('virt') and not (this_path == '' and self.dyn_class):
+                    return None     # virtual call on an object whose dynamic type is not known: not resolved
+                if e.get('virt') and this_path == '' and self.dyn_class:
+                    owner, m = cat.resolve_virtual(prog, self.dyn_class, e['n'], sig)
+                    c = prog.fn(owner + '::' + e['n'], sig) if owner else None
+                    return (c[0], this_path) if c else None
             elif o.get('k') in ('call', 'global') and not e.get('virt'):
                 # object designated by an accessor (masa_master<S>() returns a reference to a global) or a global itself
                 if o.get('k') == 'call' and not o.get('inrepo'):
